@@ -20,7 +20,12 @@ def _call(args):
     import importlib
 
     mod = importlib.import_module(modname)
-    return getattr(mod, fname)(job)
+    try:
+        return getattr(mod, fname)(job)
+    except Exception as e:  # noqa: BLE001  (a harness bug: say which job, the pool would only show the exception)
+        import traceback
+
+        raise RuntimeError("worker %s.%s failed on job %s\n%s" % (modname, fname, repr(job)[:600], traceback.format_exc()[-1500:])) from e
 
 
 def run_jobs(modname, fname, jobs, procs=NPROC, chunksize=4):
@@ -28,11 +33,15 @@ def run_jobs(modname, fname, jobs, procs=NPROC, chunksize=4):
     if not jobs:
         return []
     ctx = mp.get_context("fork")
+    from .common import scratch
+    scratch()  # created (and removed at exit) by the parent; forked workers inherit it instead of leaving their own behind
     try:
         with ProcessPoolExecutor(max_workers=procs, mp_context=ctx, initializer=_init) as ex:
             return list(ex.map(_call, [("harness." + modname, fname, j) for j in jobs], chunksize=chunksize))
     except BrokenProcessPool as e:
         raise MachineryFailure("a worker process died: %s" % e) from e
+    except RuntimeError as e:
+        raise MachineryFailure(str(e)) from e
 
 
 def flatten(list_of_lists):
